@@ -84,8 +84,9 @@ def render_step(step, hp, rng, tag):
 
 
 def vstr(v):
-    """variant: False/None = the code as it is (all five repairs on); a 5-flag string otherwise"""
-    return v if isinstance(v, str) else "11111"
+    """variant: False/None = the code as it is; otherwise a 7-flag string
+    (dupclose,bcap,capclose,capfail,bunop = committed repairs; bfold,capfirst = PROPOSED notes/C04-fix-3 / -4)"""
+    return v if isinstance(v, str) else "1111100"
 
 
 def step_case(step, v, t0):
@@ -437,7 +438,9 @@ def run_sequence(ctx, steps, seqid, strace=False, extra_fds=(), present=()):
             cur = table_spec(m["shell"])
         return outs
     # False = the code as it is; the others = the proposed repairs (single flags, then all)
-    VARIANTS = [False]          # only the code as it is: a reverted repair must show up as a violation
+    # the code as it is, then the code with a PROPOSED repair applied (so that committing one is not an alarm);
+    # a reverted committed repair matches none of them and is a violation
+    VARIANTS = [False, "1111110", "1111101", "1111111"]
     variants = {False: model_run(False)}
     work = tempfile.mkdtemp(prefix="fds_")
     out = {"line": line, "findings": [], "bad": [], "accepted": [], "nontrivial": [], "variant": None}
